@@ -451,6 +451,70 @@ def stage_find_model(ctx: Ctx, progs):
     ctx.correspondence("models/FindLoc.v find_contains / find_contains_m (allow_exact 'top', False) / find_in == FST.find_contains_loc / find_in_loc on encoded trees (node spans, their ends, shortened spans, random spans)", len(terms) // 4, [meta[i] for i in failed])
 
 
+FIND_PAIR_PROGS = ['x = [aa,\n     bb]\n', 'foo(a,\n  b)\n', 'if a:\n    b\n', 'é = [üü,\n     ññ]\n', 'r = f(a,\n      g(b,\n        c))\n', 'while xx:\n    y = 1\n    z = 22\n', 'def f(a, b):\n    return a\n',
+                   'x = {1: 2,\n     3: 4}\ny = (a +\n     b)\n', '@d\ndef g(): pass\nvar\n', '(f)(a)\n((g))(b)\n(lambda x: x)(1)\n(a or b)(c)\n(h)(i, j)\n(k)()\n(m)(n=1)\n((p))(*q)\n']
+
+
+def stage_find_pairs(ctx: Ctx):
+    """deterministic: find_loc / find_in_loc / find_contains_loc for EVERY rectangle between two points of small multi-line programs (node starts and ends, line starts and ends) vs a
+    brute-force scan: an exact match (highest / lowest by exact_top), else the first node of the walk inside the rectangle, else the lowest node that contains it; and pars() of every node
+    of these programs (parenthesized callees of one-argument calls ...) vs the parentheses counted in the text"""
+    import fst
+    for src in FIND_PAIR_PROGS:
+        root = fst.FST(src, 'exec')
+        nodes = [n for n in root.walk('loc') if n.loc is not None]
+        lines = src.split('\n')
+        points = sorted({tuple(n.loc[:2]) for n in nodes} | {tuple(n.loc[2:]) for n in nodes} | {(i, 0) for i in range(len(lines))} | {(i, len(l)) for i, l in enumerate(lines)})
+        inside_of = lambda loc, q: (loc[0], loc[1]) >= (q[0], q[1]) and (loc[2], loc[3]) <= (q[2], q[3])
+        for i, (ln, col) in enumerate(points):
+            for eln, ecol in points[i + 1:]:
+                q = (ln, col, eln, ecol)
+                exact = [n for n in nodes if tuple(n.loc) == q]
+                inside = [n for n in nodes if inside_of(n.loc, q)]
+                contain = [n for n in nodes if inside_of(q, n.bloc)]
+                try:
+                    got = {et: root.find_loc(*q, exact_top=et) for et in (False, True)}
+                    got_in = root.find_in_loc(*q)
+                    got_cont = root.find_contains_loc(*q)
+                except Exception as e:
+                    ctx.violation('find-raise', 'find_*loc raised', {'src': src, 'rect': list(q), 'error': repr(e)[:200]})
+                    continue
+                ctx.tick(('find-pairs', src, q), 'find:all-point-pairs')
+                if got_in is not (inside[0] if inside else None):
+                    ctx.violation('find_in_loc', 'find_in_loc differs from the brute-force first node inside the rectangle', {'src': src, 'rect': list(q), 'got': repr(got_in), 'want': repr(inside[0] if inside else None)})
+                    continue
+                lowest = contain[-1] if contain else None          # pre-order: the last container is the deepest (containers form a chain)
+                if got_cont is not lowest and not (got_cont is not None and lowest is not None and tuple(got_cont.bloc) == tuple(lowest.bloc)):
+                    ctx.violation('find_contains_loc-deepest', 'find_contains_loc did not return the deepest containing node', {'src': src, 'rect': list(q), 'got': repr(got_cont), 'deeper': repr(lowest)})
+                    continue
+                for et in (False, True):
+                    want = (exact[0] if et else exact[-1]) if exact else (inside[0] if inside else got_cont)
+                    if got[et] is not want:
+                        ctx.violation(f'find_loc|exact_top={et}', 'find_loc() is not: an exact match, else the first node inside the rectangle, else the lowest node that contains it',
+                                      {'src': src, 'rect': list(q), 'got': repr(got[et]), 'want': repr(want), 'exact_matches': len(exact), 'nodes_inside': len(inside)})
+                        break
+        # pars(): grouping parentheses of every expression = the balanced pairs directly around it in the text, minus a pair that belongs to the parent's syntax (a call's own)
+        toks = token_index(src)
+        for n in nodes:
+            if not isinstance(n.a, ast.expr) or isinstance(n.a, (ast.Starred, ast.Slice)) or isinstance(n.parent.a, (ast.JoinedStr, ast.FormattedValue)):
+                continue
+            try:
+                got_n = n.pars().n
+            except Exception as e:
+                ctx.violation('pars-raise', 'pars() raised', {'src': src, 'node': repr(n), 'error': repr(e)[:200]})
+                continue
+            l = n.loc
+            r_ = pars_count(toks, (l[0], l[1]), (l[2], l[3]))
+            if r_ is None:
+                continue
+            cnt = r_[0]
+            ctx.tick(('pars-pairs', src, repr(n)), 'pars:small-programs')
+            owned_by_parent = 1 if isinstance(n.parent.a, ast.Call) and n.pfield.name == 'args' and len(n.parent.a.args) == 1 and not n.parent.a.keywords else 0
+            if got_n not in (cnt, cnt - owned_by_parent) or (n.pfield.name == 'func' and got_n != cnt):
+                ctx.violation(f'pars|{type(n.a).__name__}|{n.pfield.name}', 'pars() does not report the balanced grouping parentheses that stand directly around the node',
+                              {'src': src, 'node': repr(n), 'node_src': n.src, 'field': n.pfield.name, 'pars_n': got_n, 'pairs_in_text': cnt})
+
+
 def run(ctx: Ctx):
     ctx.rule = ('(1) random strings over 1-4 byte code points: model arrays vs bistr at every index + theorem predicates on the real object; (2) per corpus program (70% with '
                 'identifiers renamed to non-ASCII): every node: loc vs AST byte positions through an independent encoder, token-boundary alignment, operator text, nesting '
@@ -478,6 +542,7 @@ def run(ctx: Ctx):
     progs += ["p = f'\u03c7{\u00e4!r:>{w}}y{b=}' 'z' \"w\"\nq = f'{a = }{b=!r:>5}'\n", "r = f'''{x=}\n{y = :>{w}}'''\n"]
     run_guarded(ctx, stage_oracle, progs)
     run_guarded(ctx, stage_find_model, progs)
+    run_guarded(ctx, stage_find_pairs)
 
 
 def replay(path):
